@@ -16,7 +16,7 @@ RULE = ('(a) exhaustive lattice: every multiset of <= 3 reference and 1..3 query
         'in non-decreasing diagonal position; each pair\'s offset = qpos-(rpos-start), |offset| <= d; pairs one-to-one '
         'and non-crossing; mutually strictly nearest partners within d are paired. Non-trivial = call returning >= 1 '
         'pair; enumerated cases distinct by construction.')
-ASSUMPTIONS = ['query coordinates for the reverse strand are length-1-position with descending label numbers (the '
+ASSUMPTIONS = ['comparisons of distances use a margin of 1e-6 bp (ties within float rounding decide nothing)', 'query coordinates for the reverse strand are length-1-position with descending label numbers (the '
                'convention C02/C04 pin from the file side)']
 MINIMUMS = {'enum-calls': {'quick': 150000, 'thorough': 800000}, 'random-calls': {'quick': 3000, 'thorough': 30000},
             'e2e-engine-calls': {'quick': 2000, 'thorough': 20000}, 'e2e-fragment-calls': {'quick': 50, 'thorough': 500}}
@@ -34,6 +34,9 @@ def plan(tier, seed):
     ne, ce = (6, 8) if tier == 'quick' else (16, 40)
     shards += [{'name': 'e2e%d' % i, 'kind': 'e2e', 'seed': seed, 'shard': i, 'cases': ce} for i in range(ne)]
     return shards
+
+
+EPS = 1e-6
 
 
 def oracle(out, rpos, qpos, qlen, shift, start, end, rev, d):
@@ -61,7 +64,7 @@ def oracle(out, rpos, qpos, qlen, shift, start, end, rev, d):
             shf = p.query.position - (p.reference.position - start)
             if abs(shf - p.queryShift) > 1e-9:
                 return 'pair-offset-wrong', 'recorded offset %s, qpos-(rpos-start) = %s' % (p.queryShift, shf)
-            if abs(shf) > d + 1e-9:
+            if abs(shf) > d + 1e-6:
                 return 'pair-beyond-maxDistance', 'offset %s > d %s' % (shf, d)
         elif isinstance(p, NotAlignedQueryPosition):
             seenq[p.query.siteId] += 1
@@ -89,10 +92,12 @@ def oracle(out, rpos, qpos, qlen, shift, start, end, rev, d):
     for rs, rp in rlab:
         for qs_, qp in qlab:
             dist = abs(qp - (rp - start))
-            if dist > d:
+            if dist > d - EPS:
                 continue
-            if all(abs(qp2 - (rp - start)) > dist for q2, qp2 in qlab if q2 != qs_) and \
-                    all(abs(qp - (rp2 - start)) > dist for r2, rp2 in rlab if r2 != rs):
+            # "strictly nearest" with a margin: far along a chromosome the float subtraction rounds at 1e-8, so distances
+            # that are equal on paper may differ in the last bits - such near-ties decide nothing
+            if all(abs(qp2 - (rp - start)) > dist + EPS for q2, qp2 in qlab if q2 != qs_) and \
+                    all(abs(qp - (rp2 - start)) > dist + EPS for r2, rp2 in rlab if r2 != rs):
                 if not any(p.reference.siteId == rs and p.query.siteId == qs_ for p in pairs):
                     return 'mutual-nearest-unpaired', 'reference label %s and query label %s are strictly each other\'s nearest within d but not paired' % (rs, qs_)
     return None
@@ -157,6 +162,12 @@ def run_random(spec, sh):
         q = [x - q[0] for x in q]
         rev = rng.random() < 0.5
         start = rng.choice([0, step, rng.randint(-2 * step, 20 * step)])
+        if rng.random() < 0.3:          # far along a chromosome, fractional coordinates, labels within a fraction of a bp of the limit
+            far = rng.choice([2 ** 24, 6 * 10 ** 7, 15 * 10 ** 7]) + rng.randint(0, 10 ** 6)
+            r = [x + far + rng.choice([0, 0.1, 0.5, -0.1]) for x in r]
+            start = start + far
+            q = [x + rng.choice([0, 0.1, 0.4]) for x in q]
+            q = [x - q[0] for x in q]
         qlen = q[-1] + 1
         c = {'r': sorted(r), 'rlen': (max(r) if r else 0) + 10, 'q': q, 'qlen': qlen, 'shift': rng.choice([0, 0, 2, 17]),
              'start': start, 'end': start + qlen, 'rev': rev, 'd': d}
@@ -188,8 +199,14 @@ def judge_e2e(case, wd, sh):
 def run_e2e(spec, sh):
     for i in range(spec['cases']):
         rng = rng_for('C12e2e', spec['seed'], spec['shard'], i)
-        case = gen.pipeline_case(rng, ['noisy', 'partial', 'chimeric', 'indel'], param_prob=0.5, param_keys=('d', 'p'),
-                                 nq=8)
+        x = rng.random()
+        if x < 0.15:
+            case = gen.far_reference_case(rng)
+        else:
+            case = gen.pipeline_case(rng, ['noisy', 'partial', 'chimeric', 'indel'], param_prob=0.5, param_keys=('d', 'p'),
+                                     nq=8)
+            if x < 0.25:
+                gen.add_contig_sized_query(rng, case)
         core.isolated(judge_e2e, sh, case, spec['workdir'])
     if hooks.MONITOR_ERRORS:
         sh.inconclusive.append('monitor errors: %s' % hooks.MONITOR_ERRORS[:3])
